@@ -431,6 +431,21 @@ def check(pid, spec, tier, seed, replay, t0):
             stats["n"] += 1
             if isinstance(r["model"], dict) and r["model"].get("class") == "out-of-domain":
                 stats["ood"] += 1
+                # outside the model, but a predicate that reads only the implementation's own output still applies
+                pv = spec["property_check"](r) if spec.get("property_on_ood") else None
+                if not pv:
+                    continue
+                r["signature_override"] = pv
+                r["diff"] = "property predicate fails on the implementation's own output (input outside the model): " + pv
+                if any(k["signature"] == pv for k in known):
+                    stats["known"] = stats.get("known", 0) + 1
+                    if pv not in known_seen:
+                        known_seen.add(pv)
+                        mismatches.append(r)
+                    continue
+                stats["mismatch"] += 1
+                if len(mismatches) < 400:
+                    mismatches.append(r)
                 continue
             d = compare(r["kind"], r["case"], r["impl"], r["model"], spec)
             if not d and "property_check" in spec:
